@@ -46,6 +46,8 @@ type chainGen struct {
 	long      bool
 	seen      map[string]bool
 	delivered []int
+	byIns     map[string]aTx
+	dupTxs    int
 }
 
 var spendableScripts = [][]byte{{0x51}, {0x51}, {0x51}, {0x52}, {0x53}, {0x01, 0x51}, {0x02, 0xab, 0xcd}, {0x60}}
@@ -280,6 +282,34 @@ func (g *chainGen) makeBlock(p *gNode, kind int) (aBlock, bool) {
 		if len(t.ins) == 0 {
 			break
 		}
+		// the same inputs as an earlier transaction (possible once a duplicate coinbase was
+		// re-created): now and then repeat that transaction exactly, which re-creates its txid
+		key := fmt.Sprint(t.ins)
+		if prev, ok := g.byIns[key]; ok && kind == 0 && r.Chance(1, 2) {
+			free := true
+			for i := range prev.outs {
+				if _, present := p.utxo[aOp{prev.id, i}]; present {
+					free = false
+				}
+			}
+			for _, x := range blk.txs {
+				if x.id == prev.id {
+					free = false
+				}
+			}
+			if free {
+				blk.txs = append(blk.txs, prev)
+				g.dupTxs++
+				for i, o := range prev.outs {
+					if !genUnspendable(o.script) && isOurs(o.script) {
+						op := aOp{prev.id, i}
+						pool = append(pool, av{op, gEntry{o.amt, o.script, height, false}})
+						inBlock[op] = true
+					}
+				}
+				continue
+			}
+		}
 		nout := 1 + r.Intn(3)
 		left := total - r.Range(0, total/10)
 		for i := 0; i < nout; i++ {
@@ -313,6 +343,9 @@ func (g *chainGen) makeBlock(p *gNode, kind int) (aBlock, bool) {
 			}
 		}
 		blk.txs = append(blk.txs, t)
+		if kind == 0 {
+			g.byIns[key] = t
+		}
 		for i, o := range t.outs {
 			if !genUnspendable(o.script) && isOurs(o.script) {
 				op := aOp{t.id, i}
@@ -374,7 +407,11 @@ func (g *chainGen) observe(dumpOK bool) {
 	case 0, 1:
 		g.ops = append(g.ops, "O")
 	case 2:
-		g.ops = append(g.ops, "P")
+		if r.Chance(1, 3) {
+			g.ops = append(g.ops, "R")
+		} else {
+			g.ops = append(g.ops, "P")
+		}
 	case 3:
 		if dumpOK {
 			g.ops = append(g.ops, "D")
@@ -413,7 +450,7 @@ func genChain(r *core.Rand, profile int, maxOps int, long bool) (string, string,
 		}
 	}
 	g := &chainGen{r: r, c: c, b: newBuilder(c), nodes: map[int]*gNode{}, nextB: 1, nextT: 1,
-		ids: map[chainhash.Hash]int{}, long: long, seen: map[string]bool{}}
+		ids: map[chainhash.Hash]int{}, long: long, seen: map[string]bool{}, byIns: map[string]aTx{}}
 	g.nodes[0] = &gNode{utxo: map[aOp]gEntry{}}
 	dumpOK := c.cache == 0 || c.cache == hugeCache
 	n := 3 + r.Intn(maxOps)
